@@ -205,7 +205,38 @@ def bind_args(eng, fi, args, kwargs, s):
         if a.kwarg is not None:
             # f(x, **d) where f takes **kw: keys of d that are parameter names are not supported; d is passed on whole
             if missing:
-                raise Unsupported("**d into a function with **kwargs and unbound parameters")
+                # f(**d) where f has parameters p (with constant defaults) AND **kw: p takes d[p] when d has the key, its
+                # default otherwise; kw receives the other entries of d, in d's order
+                defaults0 = dict(zip(names[len(names) - len(a.defaults):], a.defaults))
+                defaults0.update({x.arg: dv for x, dv in zip(a.kwonlyargs, a.kw_defaults) if dv is not None})
+                taken_now = []
+                for n in missing:
+                    node = defaults0.get(n)
+                    if not isinstance(node, ast.Constant):
+                        raise Unsupported("**d into a function with **kwargs and a parameter without constant default")
+                    dv = from_python(node.value) or eng.as_val(s, PyConst(node.value))
+                    key = VStr(z3.StringVal(n))
+                    bound[n] = SV(z3.If(h.dhas(d.ref, key), h.dget(d.ref, key), eng.as_val(s, dv).t), None)
+                    taken_now.append(key)
+                from .heap import DictComps
+                old_c = DictComps(h.dlen(d.ref), h.dkeys(d.ref), h._get("dhas", d.ref), h._get("didx", d.ref), h._get("dval", d.ref))
+                ref = eng.alloc(s, "dict")
+                hh, new_c = s.heap.fresh_dict_at(ref, "kw")
+                s.heap = hh
+                x, x2 = z3.Const("kw_k", Val), z3.Const("kw_k2", Val)
+                rest = lambda t: z3.And([t != k for k in taken_now])
+                s.assume(*new_c.wf())
+                s.assume(new_c.n >= 0, new_c.n <= old_c.n,
+                         z3.ForAll([x], new_c.has(x) == z3.And(old_c.has(x), rest(x)), patterns=[new_c.has(x)]),
+                         z3.ForAll([x], z3.Implies(rest(x), new_c.val(x) == old_c.val(x)), patterns=[new_c.val(x)]),
+                         z3.ForAll([x, x2], z3.Implies(z3.And(new_c.has(x), new_c.has(x2)), (new_c.idx(x) < new_c.idx(x2)) == (old_c.idx(x) < old_c.idx(x2))),
+                                   patterns=[z3.MultiPattern(new_c.idx(x), new_c.idx(x2))]))
+                taken = [VStr(z3.StringVal(n)) for n in names + kwnames if VStr(z3.StringVal(n)) not in taken_now and n not in missing]
+                eng.oblige(f"{eng.qual}.call.{fi.qualname.rsplit('.', 1)[-1]}.kwargs_no_collision@L{eng.cur_line}", s,
+                           z3.And([z3.Not(h.dhas(d.ref, t)) for t in taken]) if taken else z3.BoolVal(True), "call")
+                bound[a.kwarg.arg] = sv_ref(ref, "dict")
+                dstar = None
+        if dstar is not None and a.kwarg is not None:
             # Python builds a NEW dict for the callee's **kwargs: same entries, same order
             ref = eng.alloc(s, "dict")
             hh = s.heap.copy()
